@@ -40,6 +40,7 @@ type script struct {
 	Burst   int  `json:"burst"`   // extra unique lines per producer in the first phase (buffer overflow runs)
 	ShutMs  int  `json:"shutMs"`  // delay between the last log call and Shutdown
 	Shut2Ms int  `json:"shut2Ms"` // > 0: a second goroutine calls Shutdown too, this long after the first call
+	SlowUs  int  `json:"slowUs"`  // the adapter takes this long per message (a slow terminal or file)
 	Pulses  int  `json:"pulses"`  // closing phase: single line, short pause, then more lines than the buffer holds (xN)
 }
 
@@ -111,6 +112,9 @@ func main() {
 	}
 	tr.Emit(map[string]any{"e": "init", "np": sc.NP, "h": 0})
 	log.SetAdapter(log.AdapterFunc(func(msg log.Message, dups uint64) {
+		if sc.SlowUs > 0 {
+			time.Sleep(time.Duration(sc.SlowUs) * time.Microsecond)
+		}
 		toks := token.FindAllString(log.StdoutAdapter.Format(msg, dups), -1)
 		lines := []string{}
 		if len(toks) > 1 {
